@@ -365,10 +365,13 @@ def r3(ctx):
 
 
 # ------------------------------------------------------------------------------------------ self test
-R.mutant("r1-mssql-loses-empty-set", "dialects/mssql/base.py",
-         sub('    def visit_empty_set_expr(self, type_, **kw):\n        return "SELECT 1 WHERE 1!=1"\n', ""), "C07-R1")
-R.mutant("r1-oracle-raises", "dialects/oracle/base.py",
-         sub('        return "SELECT 1 FROM DUAL WHERE 1!=1"\n', '        raise NotImplementedError()\n'), "C07-R1")
+R.mutant("r1-str-dialect-uses-base-compiler", "engine/default.py",
+         sub("    statement_compiler = compiler.StrSQLCompiler\n", "    statement_compiler = compiler.SQLCompiler\n"), "C07-R1")
+R.mutant("r1-mssql-dialect-uses-base-compiler", "dialects/mssql/base.py",
+         sub("    statement_compiler = MSSQLCompiler\n", "    statement_compiler = compiler.SQLCompiler\n"), "C07-R1")
+R.mutant("r1-oracle-raises-for-tuples", "dialects/oracle/base.py",
+         sub('        return "SELECT 1 FROM DUAL WHERE 1!=1"\n',
+             '        raise NotImplementedError()\n        return "SELECT 1 FROM DUAL WHERE 1!=1"\n'), "C07-R1")
 R.mutant("r2-not-in-const-false", COMP, sub('return "NULL) OR (1 = 1"', 'return "NULL) OR (1 != 1"'), "C07-R2")
 R.mutant("r2-in-joined-with-or", COMP, sub('return "NULL) AND (1 != 1"', 'return "NULL) OR (1 != 1"'), "C07-R2")
 R.mutant("r2-swap-branches", COMP,
@@ -386,8 +389,8 @@ R.mutant("r3-flip-on-self", ELEM,
              "            self.expand_op = negated_op\n            return self\n"), "C07-R3")
 R.mutant("r3-flip-to-original", ELEM, sub("            bind.expand_op = negated_op\n", "            bind.expand_op = original_op\n"), "C07-R3")
 R.mutant("r3-callsite-drops-expand-op", COMP,
-         sub("                replacement_expression = self.visit_empty_set_op_expr(\n                    [parameter.type], parameter.expand_op\n                )\n\n        elif",
-             "                replacement_expression = self.visit_empty_set_op_expr(\n                    [parameter.type], None\n                )\n\n        elif"), "C07-R3")
+         sub("                ) + self.visit_empty_set_op_expr(\n                    parameter.type.types, parameter.expand_op\n",
+             "                ) + self.visit_empty_set_op_expr(\n                    parameter.type.types, None\n"), "C07-R3")
 # benign
 R.mutant("benign-rename-clone", ELEM,
          sub("            bind = self._clone()\n            bind.expand_op = negated_op\n            return bind\n",
